@@ -166,12 +166,26 @@ func run(workers, ops int, seed uint64) *Result {
 					}
 				case 1: // response encoder negotiation
 					kinds[1].Add(1)
+					// vendor types travel both as Accept values (not negotiable verbatim: JSON) and as content
+					// types fixed in a design (honoured by their suffix): what one request negotiated must not
+					// decide what another request's designed type means
+					vendor := []string{"application/vnd.lab.item+xml", "application/vnd.lab.item+json", "application/vnd.lab.item+gob", "application/vnd.lab.item"}
 					accept := []string{"", "application/json", "application/xml", "application/gob", "text/plain"}[r.Intn(4)]
+					designed := ""
+					switch r.Intn(4) {
+					case 0:
+						accept = vendor[r.Intn(len(vendor))]
+					case 1:
+						designed = vendor[r.Intn(len(vendor))]
+					}
 					ctx := context.WithValue(context.Background(), goahttp.AcceptTypeKey, accept)
+					if designed != "" {
+						ctx = context.WithValue(ctx, goahttp.ContentTypeKey, designed)
+					}
 					rec := httptest.NewRecorder()
 					v := &echo{Token: token, N: i}
 					if err := goahttp.ResponseEncoder(ctx, rec).Encode(v); err != nil {
-						viol("encoder:error", "accept %q: %v", accept, err)
+						viol("encoder:error", "accept %q designed %q: %v", accept, designed, err)
 						continue
 					}
 					ct := rec.Header().Get("Content-Type")
@@ -179,8 +193,22 @@ func run(workers, ops int, seed uint64) *Result {
 					if accept == "application/xml" || accept == "application/gob" {
 						wantCT = accept
 					}
+					if designed != "" {
+						wantCT = designed
+						// the body is written in the format the designed type names
+						body := rec.Body.Bytes()
+						switch {
+						case strings.HasSuffix(designed, "+xml") && !bytes.HasPrefix(bytes.TrimSpace(body), []byte("<")):
+							viol("encoder:isolation:designed-type-format", "designed %q: body %q is not XML", designed, body)
+						case (strings.HasSuffix(designed, "+json") || designed == "application/vnd.lab.item") && !bytes.HasPrefix(bytes.TrimSpace(body), []byte("{")):
+							viol("encoder:isolation:designed-type-format", "designed %q: body %q is not JSON", designed, body)
+						}
+					}
 					if !strings.HasPrefix(ct, wantCT) {
-						viol("encoder:isolation:content-type", "accept %q negotiated %q", accept, ct)
+						viol("encoder:isolation:content-type", "accept %q designed %q negotiated %q", accept, designed, ct)
+					}
+					if strings.HasSuffix(wantCT, "+gob") {
+						wantCT = "application/gob" // the token cannot be searched in a gob body either
 					}
 					if wantCT != "application/gob" && !bytes.Contains(rec.Body.Bytes(), []byte(token)) {
 						viol("encoder:isolation:body", "body %q lacks own token %s", rec.Body.String(), token)
